@@ -267,3 +267,71 @@ func isMapStructBytes(c *ssa.Call) bool {
 	res := f.Type().(*types.Signature).Results()
 	return res.Len() > 0 && isByteSlice(res.At(0).Type())
 }
+
+// checkCleanupRootAlive — C04/CLEANUP-ROOT-ALIVE. Do returns as soon as one of
+// its two goroutines fails (waitFor abandons the other one, which is what
+// C18/WAITFOR-NONBLOCKING requires), and its callers then close DestRoot. The
+// abandoned receiver goroutine removes its temporary file only when the
+// connection is closed — through the root its pending file was created with.
+// That root must therefore be owned by the function that owns the pending
+// file: opened there, and closed by a defer registered before the deferred
+// Cleanup (so that it runs after it).
+func checkCleanupRootAlive(p *Prog, r *Report) {
+	rule := "C04/CLEANUP-ROOT-ALIVE"
+	r.Rule(rule, "the temporary file can still be removed after Do has returned and its callers have closed DestRoot: the root a pending file is created with is a handle of its own — the result of (*os.Root).OpenRoot in the function that defers Cleanup — closed by a defer that is registered before the deferred Cleanup (it runs after it)", 1)
+	n := 0
+	for _, fn := range p.FuncsInPkg(pkgReceiver) {
+		var cleanupDefer *ssa.Defer
+		for _, b := range fn.Blocks {
+			for _, in := range b.Instrs {
+				if d, ok := in.(*ssa.Defer); ok {
+					if f := calleeOf(d); f != nil && f.Name() == "Cleanup" {
+						cleanupDefer = d
+					}
+				}
+			}
+		}
+		if cleanupDefer == nil {
+			continue
+		}
+		// the pending file's root argument
+		var rootArg ssa.Value
+		allCalls(fn, func(c ssa.CallInstruction) {
+			if sc := c.Common().StaticCallee(); sc != nil && sc.Name() == "newPendingFile" && len(c.Common().Args) >= 1 {
+				rootArg = c.Common().Args[0]
+			}
+			if calleeName(c) == pkgRenameio+".NewPendingFile" {
+				if w := withRootOption(c); w != nil {
+					rootArg = w
+				}
+			}
+		})
+		if rootArg == nil {
+			continue
+		}
+		n++
+		key := funcKey(fn) + " pending file root"
+		pos := p.Pos(cleanupDefer.Pos())
+		ex, ok := unwrapLocal(rootArg).(*ssa.Extract)
+		var oc *ssa.Call
+		if ok {
+			oc, _ = ex.Tuple.(*ssa.Call)
+		}
+		if oc == nil || ex.Index != 0 || calleeName(oc) != "(*os.Root).OpenRoot" || oc.Parent() != fn {
+			r.Bad(rule, key, pos, "the pending file is created with a root this function does not own (`"+rootArg.String()+"`): when Do has returned and its caller closed that root, the deferred Cleanup of a goroutine that was still receiving cannot remove the temporary file (\"file already closed\")")
+			continue
+		}
+		closed := false
+		for _, b := range fn.Blocks {
+			for _, in := range b.Instrs {
+				if d, ok := in.(*ssa.Defer); ok && calleeName(d) == "(*os.Root).Close" && len(d.Call.Args) > 0 && unwrapLocal(d.Call.Args[0]) == ssa.Value(ex) && InstrDominates(d, cleanupDefer) {
+					closed = true
+				}
+			}
+		}
+		r.Cond(closed, rule, key, pos, "the function's own root is not closed by a defer registered before the deferred Cleanup")
+	}
+	if n == 0 {
+		r.Unk(rule, "pending files", "-", "no function of package receiver defers Cleanup of a pending file: re-read how temporary files are removed")
+	}
+}
